@@ -1,8 +1,6 @@
 SPECIFICATION Spec
 CONSTANTS
-  NA = 2
-  NB = 2
-  MaxMsgs = 3
+  Topos <- ToposQuick
   Payloads = {1, 2}
 INVARIANTS Inv ChanFlight
 CHECK_DEADLOCK FALSE
